@@ -16,6 +16,7 @@ From Coquelicot Require Import Coquelicot.
 From BZ Require Import Base.Ops Gen.Point Gen.BBox Hand.Sweep Proofs.C19 Proofs.C19float Base.FloatCmp.
 From BZ Require Gen.Sample Gen.Sweep Proofs.Bridge3.
 Import ListNotations.
+From BZ Require Proofs.Transfer3.
 Open Scope R_scope.
 
 Theorem C19_includes_iff :
@@ -113,6 +114,24 @@ Proof. exact sweep_float_example_thm. Qed.
 Theorem C19_sweep_is_generated :
   forall (T : Type) (O : Ops T) (A B : list (bbox T)), exists r, Gen.Sweep.linesweep_bbox_intersections O (Bridge3.index_shapes A) (Bridge3.index_shapes B) = Gen.Sample.Returns r /\ map (fun p : Gen.Sweep.shape T * Gen.Sweep.shape T => (fst (fst p), fst (snd p))) r = map (fun q : bool * nat * nat => (snd (fst q), snd q)) (bbox_intersections O A B).
 Proof. exact @Bridge3.bbox_intersections_gen_hand. Qed.
+Theorem C19_gen_sweep_never_raises :
+  forall (T : Type) (O : Ops T) (A B : list (bbox T)), exists r : list (Sweep.shape T * Sweep.shape T), Sweep.linesweep_bbox_intersections O (Bridge3.index_shapes A) (Bridge3.index_shapes B) = Sample.Returns r.
+Proof. exact @Transfer3.C19T.gen_sweep_never_raises. Qed.
+Theorem C19_gen_sweep_sound_nodup :
+  forall (A B : list (bbox R)) (r : list (Sweep.shape R * Sweep.shape R)), Sweep.linesweep_bbox_intersections ROps (Bridge3.index_shapes A) (Bridge3.index_shapes B) = Sample.Returns r -> exists fl : list bool, length fl = length r /\ NoDup (Transfer3.C19T.oriented fl r) /\ (forall i j : nat, In (i, j) (Transfer3.C19T.oriented fl r) -> Transfer3.C19T.sound_pair A B i j).
+Proof. exact @Transfer3.C19T.gen_sweep_sound_nodup. Qed.
+Theorem C19_gen_sweep_eq_all_pairs_weak :
+  forall (A B : list (bbox R)) (r : list (Sweep.shape R * Sweep.shape R)), no_bad_tie A B -> Sweep.linesweep_bbox_intersections ROps (Bridge3.index_shapes A) (Bridge3.index_shapes B) = Sample.Returns r -> exists fl : list bool, length fl = length r /\ Permutation (Transfer3.C19T.oriented fl r) (all_overlapping_pairs A B).
+Proof. exact @Transfer3.C19T.gen_sweep_eq_all_pairs_weak. Qed.
+Theorem C19_gen_sweep_eq_all_pairs :
+  forall (A B : list (bbox R)) (r : list (Sweep.shape R * Sweep.shape R)), wf_boxes A -> wf_boxes B -> tie_free A B -> Sweep.linesweep_bbox_intersections ROps (Bridge3.index_shapes A) (Bridge3.index_shapes B) = Sample.Returns r -> exists fl : list bool, length fl = length r /\ Permutation (Transfer3.C19T.oriented fl r) (all_overlapping_pairs A B) /\ NoDup (Transfer3.C19T.oriented fl r) /\ (forall i j : nat, In (i, j) (Transfer3.C19T.oriented fl r) <-> Transfer3.C19T.sound_pair A B i j).
+Proof. exact @Transfer3.C19T.gen_sweep_eq_all_pairs. Qed.
+Theorem C19_gen_sweep_unordered :
+  forall (A B : list (bbox R)) (r : list (Sweep.shape R * Sweep.shape R)), wf_boxes A -> wf_boxes B -> tie_free A B -> Sweep.linesweep_bbox_intersections ROps (Bridge3.index_shapes A) (Bridge3.index_shapes B) = Sample.Returns r -> length r = length (all_overlapping_pairs A B) /\ (forall i j : nat, In (i, j) (map Transfer3.C19T.gen_ids r) -> Transfer3.C19T.sound_pair A B i j \/ Transfer3.C19T.sound_pair A B j i) /\ (forall i j : nat, Transfer3.C19T.sound_pair A B i j -> In (i, j) (map Transfer3.C19T.gen_ids r) \/ In (j, i) (map Transfer3.C19T.gen_ids r)).
+Proof. exact @Transfer3.C19T.gen_sweep_unordered. Qed.
+Theorem C19_gen_sweep_float_eq_all_pairs :
+  forall (A B : list (bbox float)) (r : list (Sweep.shape float * Sweep.shape float)), List.Forall bbox_finite A -> List.Forall bbox_finite B -> wf_boxesF A -> wf_boxesF B -> tie_freeF A B -> Sweep.linesweep_bbox_intersections FOps (Bridge3.index_shapes A) (Bridge3.index_shapes B) = Sample.Returns r -> exists fl : list bool, length fl = length r /\ Permutation (Transfer3.C19T.oriented fl r) (all_overlapping_pairsF A B) /\ NoDup (Transfer3.C19T.oriented fl r) /\ (forall i j : nat, In (i, j) (Transfer3.C19T.oriented fl r) <-> (i < length A)%nat /\ (j < length B)%nat /\ BBox_overlaps FOps (nth i A dboxF) (nth j B dboxF) = true).
+Proof. exact @Transfer3.C19T.gen_sweep_float_eq_all_pairs. Qed.
 
 Print Assumptions C19_includes_iff.
 Print Assumptions C19_overlaps_iff.
@@ -145,3 +164,9 @@ Print Assumptions C19_includes_needs_finite.
 Print Assumptions C19_overlaps_nan_true_computed.
 Print Assumptions C19_sweep_float_example_thm.
 Print Assumptions C19_sweep_is_generated.
+Print Assumptions C19_gen_sweep_never_raises.
+Print Assumptions C19_gen_sweep_sound_nodup.
+Print Assumptions C19_gen_sweep_eq_all_pairs_weak.
+Print Assumptions C19_gen_sweep_eq_all_pairs.
+Print Assumptions C19_gen_sweep_unordered.
+Print Assumptions C19_gen_sweep_float_eq_all_pairs.
